@@ -5,5 +5,6 @@ import ShootVerif.Drive.GetSet
 import ShootVerif.Drive.Json
 import ShootVerif.Drive.C01
 import ShootVerif.Drive.Transfer
+import ShootVerif.Drive.Directive
 open ShootVerif.Drive
-def main : IO Unit := runDriver [("ctor", ctorCase), ("opt", optCase), ("getset", getsetCase), ("json", jsonCase), ("c01new", c01newCase), ("transfer", transferCase)]
+def main : IO Unit := runDriver [("ctor", ctorCase), ("opt", optCase), ("getset", getsetCase), ("json", jsonCase), ("c01new", c01newCase), ("transfer", transferCase), ("directive", directiveCase)]
